@@ -7,6 +7,7 @@ import PysamlModel.Proofs.SpFactory
 import PysamlModel.Proofs.SpTimes
 import PysamlModel.Props.C04
 import PysamlModel.Model.SpAttr
+import PysamlModel.Model.SpLex
 
 namespace C05
 open Sp
@@ -461,5 +462,46 @@ example : processAttr okCfg (okEnv 100) attrResp = .identity
   { nameId := some "n", issuer := "", cameFrom := none, notOnOrAfter := 200, sessionIndex := none, cached := false } := by decide
 example : (processAttr okCfg (okEnv 260) attrResp).isIdentity = true := by decide
 example : processAttr okCfg (okEnv 261) attrResp = .rejected .expired := by decide
+
+/-! ## Lexical form of the timestamps (Model/SpLex.lean)
+
+The instants of a `Response` are the true instants its `xs:dateTime` values denote.  Whatever lexical form the
+sender used, identity is produced only inside the windows of those instants: the forms the library reads (`Z`,
+fractions, no designator) denote what it reads, and a numeric zone designator is refused outright. -/
+
+theorem lexGate_identity {f : TimeForm} {x : Outcome} {o : Reported} (h : lexGate f x = .identity o) :
+    f.read = true ∧ x = .identity o := by
+  unfold lexGate at h
+  cases hf : f.read
+  · rw [hf] at h; cases h
+  · rw [hf] at h; exact ⟨rfl, by simpa using h⟩
+
+/-- C05 for every lexical form, all three entry points: identity ⇒ the windows of the true instants hold. -/
+theorem C05_windows_lex {f : TimeForm} {cfg : Cfg} {env : Env} {r : Response} {o : Reported}
+    (h : processLex f cfg env r = .identity o) : ∀ a ∈ visible r, timesOk cfg env a = true :=
+  C05_windows (lexGate_identity h).2
+
+theorem C05_windows_factory_lex {f : TimeForm} {cfg : Cfg} {env : Env} {r : Response} {o : Reported}
+    (h : processFactoryLex f cfg env r = .identity o) : ∀ a ∈ visible r, timesOk cfg env a = true :=
+  C05_windows_factory (lexGate_identity h).2
+
+theorem C05_windows_attr_lex {f : TimeForm} {cfg : Cfg} {env : Env} {r : Response} {o : Reported}
+    (h : processAttrLex f cfg env r = .identity o) :
+    (∀ a ∈ visible r, attrTimesOk cfg env a = true) ∧ issueInstantWithin cfg env r = true :=
+  C05_windows_attr (lexGate_identity h).2
+
+/-- A timestamp with a numeric zone designator never yields identity, at any clock, under any configuration. -/
+theorem C05_offset_refused (cfg : Cfg) (env : Env) (r : Response) :
+    processLex .offset cfg env r = .rejected .timeForm ∧ processFactoryLex .offset cfg env r = .rejected .timeForm ∧
+    processAttrLex .offset cfg env r = .rejected .timeForm := ⟨rfl, rfl, rfl⟩
+
+/-- The forms that are read change nothing. -/
+theorem C05_read_forms_transparent (f : TimeForm) (hf : f.read = true) (cfg : Cfg) (env : Env) (r : Response) :
+    processLex f cfg env r = process cfg env r ∧ processFactoryLex f cfg env r = processFactory cfg env r ∧
+    processAttrLex f cfg env r = processAttr cfg env r := by
+  simp [processLex, processFactoryLex, processAttrLex, lexGate, hf]
+
+example : (processLex .noZone okCfg (okEnv 260) okResp).isIdentity = true ∧
+    processLex .offset okCfg (okEnv 260) okResp = .rejected .timeForm := by decide
 
 end C05
